@@ -895,7 +895,7 @@ class PyvalColorizer:
         if len(tree) > 1 and not noparen:
             self._output('(', self.RE_GROUP_TAG, state)
 
-        for elt in tree:
+        for index, elt in enumerate(tree):
             op = elt[0]
             args = elt[1]
 
@@ -1014,7 +1014,16 @@ class PyvalColorizer:
                 self._output(')', self.RE_GROUP_TAG, state)
 
             elif op == sre_constants.GROUPREF: #type:ignore[attr-defined]
-                self._output('\\%d' % args, self.RE_REF_TAG, state)
+                following = tree[index+1] if index+1 < len(tree) else None
+                if following is not None and following[0] == sre_constants.LITERAL \
+                        and chr(cast(int, following[1])) in '0123456789': #type:ignore[attr-defined]
+                    # r'(a)\1' followed by the literal '0' is not the reference r'\10': 
+                    # keep the digit apart from the group number.
+                    self._output('(?:', self.RE_GROUP_TAG, state)
+                    self._output('\\%d' % args, self.RE_REF_TAG, state)
+                    self._output(')', self.RE_GROUP_TAG, state)
+                else:
+                    self._output('\\%d' % args, self.RE_REF_TAG, state)
 
             elif op == sre_constants.RANGE: #type:ignore[attr-defined]
                 self._colorize_re_tree( ((sre_constants.LITERAL, args[0]),), #type:ignore[attr-defined]
